@@ -608,7 +608,12 @@ impl<'a> TupleReader<'a> {
         let bitmap_size = null_bitmap_size(num_values);
         let mut cursor = layout.delta_start();
 
-        while cursor < data.len() {
+        // A delta header is read at its own alignment: a tuple without (more) deltas may still
+        // end in a few bytes of padding, which is not a delta.
+        while cursor.next_multiple_of(std::mem::align_of::<DeltaHeader>())
+            + std::mem::size_of::<DeltaHeader>()
+            <= data.len()
+        {
             let (delta_header, header_end) = DeltaHeader::read_from(data, cursor);
             cursor = header_end;
 
